@@ -58,13 +58,18 @@ deriving Repr, DecidableEq
 
 def Duration.zero : Duration := ⟨0, 0, 0, 0⟩
 
+/-- the optional leading '-' of `nextNumber`: (negative, rest) -/
+def splitMinus (s : Str) : Bool × Str :=
+  match s with
+  | 45 :: r => (true, r)
+  | _ => (false, s)
+
 /-- `nextNumber`. `legacy = true` is the code before the fix of F1 (`panic(err)` when `Atoi` fails),
     `legacy = false` the code after it (`return 0, input, err`). -/
 def nextNumber (legacy : Bool) (input : Str) : Out (Int × Str) :=
   if input = [] then .ok (0, []) else
-  let (negative, input) := match input with
-    | 45 :: r => (true, r)
-    | _ => (false, input)
+  let negative := (splitMinus input).1
+  let input := (splitMinus input).2
   -- the loop collects leading digits in n; rest = input[i:] at the first non-digit ("" if none)
   let n := input.takeWhile isDigit
   let rest := input.dropWhile isDigit
@@ -287,7 +292,8 @@ def tokenize : Nat → Str → Option (List Item)
   | 0, _ => none
   | fuel + 1, s =>
     if s = [] then some [] else
-    let (neg, r) := match s with | 45 :: r => (true, r) | _ => (false, s)
+    let neg := (splitMinus s).1
+    let r := (splitMinus s).2
     let ds := r.takeWhile isDigit
     match r.dropWhile isDigit with
     | [] => none
